@@ -1,6 +1,7 @@
 import XtModel.Model.Wire
 import XtModel.Model.Encoding
 import XtModel.Model.MsgpackSize
+import XtModel.Model.MsgpackCodec
 
 /-!
 Native driver: one case per input line, one answer per output line
@@ -90,8 +91,36 @@ def markerName : Msgpack.Marker → String
   | .ext8 => "Ext8" | .ext16 => "Ext16" | .ext32 => "Ext32"
   | .reserved => "Reserved"
 
+def derrTok : Msgpack.DErr → String
+  | .eofMarker => "eof-marker"
+  | .eofData => "eof-data"
+  | .reserved => "reserved"
+  | .depthLimitExceeded => "depth"
+  | .depthUnderflow => "underflow"
+  | .extUnsupported => "ext"
+
+def verdictTok : Msgpack.Verdict → String
+  | .ok => "ok"
+  | .sizeErr r => "err:" ++ resTok r
+  | .decErr e => "err:" ++ derrTok e
+  | .panicSplitAt => "panic:split_at"
+
 def msgpack (fs : List String) : String :=
   match fs with
+  | ["msgdecode", depth, hex] =>
+    match depth.toNat?, parseHex hex with
+    | some d, some bs =>
+      let s := Msgpack.sliceLoop false d d bs
+      let r := Msgpack.readerLoop false d bs
+      s!"slice:{verdictTok s.2}:{s.1.length} reader:{verdictTok r.2}:{r.1.length} enc:{toHex (Msgpack.encodeList r.1)}"
+    | _, _ => "bad-case"
+  | ["msgdec1", ext, depth, hex] =>
+    match depth.toNat?, parseHex hex with
+    | some d, some bs =>
+      match Msgpack.decodeG (ext == "1") d bs with
+      | .ok (v, rest) => s!"ok:{bs.length - rest.length}:{toHex (Msgpack.encode v)}"
+      | .error e => "err:" ++ derrTok e
+    | _, _ => "bad-case"
   | ["msgsize", depth, hex] =>
     match depth.toNat?, parseHex hex with
     | some d, some bs => resTok (Msgpack.nextValueSize bs d)
@@ -106,7 +135,7 @@ def msgpack (fs : List String) : String :=
 def answer (fs : List String) : String :=
   match fs with
   | "encdetect" :: _ | "reencode" :: _ | "reencstream" :: _ => encoding fs
-  | "msgsize" :: _ | "msgclass" :: _ | "msgconst" :: _ => msgpack fs
+  | "msgsize" :: _ | "msgclass" :: _ | "msgconst" :: _ | "msgdecode" :: _ | "msgdec1" :: _ => msgpack fs
   | _ => "bad-engine"
 
 partial def loop (h : IO.FS.Stream) (out : IO.FS.Stream) : IO Unit := do
